@@ -182,11 +182,6 @@ Section Rules.
   Proof.
     intros p k op ts r ts' R Hk Hop H1 H2. unfold tok_prec in *. ev_start.
     rewrite parse_expr_S.
-    assert (E : forall X Y : P expr,
-              match cur (TFix k :: ts) with
-              | TFix KBang | TFix KMinus => X
-              | _ => Y
-              end = X) by (intros X Y; destruct Hk; subst k; reflexivity).
     destruct Hk; subst k; step; rewrite parse_prefix_expr_S; step; rewrite Hop; cbv zeta;
       ev_rw; step; ev_rw; reflexivity.
   Qed.
@@ -339,32 +334,32 @@ Section Rules.
   (** ** statements and blocks *)
 
   Lemma PSt_let : forall n ts e ts',
-    PE PLowest ts (Ok (e, ts')) ->
-    PSt (TFix KDeclare :: TIdent n :: TFix KAssign :: ts) (Ok (SLet n e, skip_optional KSemi ts')).
+    PE PLowest ts (Ok (e, TFix KSemi :: ts')) ->
+    PSt (TFix KDeclare :: TIdent n :: TFix KAssign :: ts) (Ok (SLet n e, ts')).
   Proof.
     intros n ts e ts' H. ev_start. rewrite parse_statement_S. cbv zeta. step. ev_rw.
     reflexivity.
   Qed.
 
   Lemma PSt_return : forall ts e ts',
-    PE PLowest ts (Ok (e, ts')) ->
-    PSt (TFix KReturn :: ts) (Ok (SReturn e, skip_optional KSemi ts')).
+    PE PLowest ts (Ok (e, TFix KSemi :: ts')) ->
+    PSt (TFix KReturn :: ts) (Ok (SReturn e, ts')).
   Proof. intros ts e ts' H. ev_start. rewrite parse_statement_S. step. ev_rw. reflexivity. Qed.
 
   Lemma PSt_block : forall ts b ts',
-    PB (TFix KOpenBrace :: ts) (Ok (b, ts')) ->
-    PSt (TFix KOpenBrace :: ts) (Ok (SBlock b, skip_optional KSemi ts')).
+    PB (TFix KOpenBrace :: ts) (Ok (b, TFix KSemi :: ts')) ->
+    PSt (TFix KOpenBrace :: ts) (Ok (SBlock b, ts')).
   Proof. intros ts b ts' H. ev_start. rewrite parse_statement_S. cbn [cur]. ev_rw. reflexivity. Qed.
 
-  Lemma PSt_break : forall ts, PSt (TFix KBreak :: ts) (Ok (SBreak, skip_optional KSemi ts)).
+  Lemma PSt_break : forall ts, PSt (TFix KBreak :: TFix KSemi :: ts) (Ok (SBreak, ts)).
   Proof. intros ts. ev_start. rewrite parse_statement_S. reflexivity. Qed.
 
-  Lemma PSt_continue : forall ts, PSt (TFix KContinue :: ts) (Ok (SContinue, skip_optional KSemi ts)).
+  Lemma PSt_continue : forall ts, PSt (TFix KContinue :: TFix KSemi :: ts) (Ok (SContinue, ts)).
   Proof. intros ts. ev_start. rewrite parse_statement_S. reflexivity. Qed.
 
   Lemma PSt_expr : forall ts e ts',
-    expr_start (cur ts) = true -> PE PLowest ts (Ok (e, ts')) ->
-    PSt ts (Ok (SExpr e, skip_optional KSemi ts')).
+    expr_start (cur ts) = true -> PE PLowest ts (Ok (e, TFix KSemi :: ts')) ->
+    PSt ts (Ok (SExpr e, ts')).
   Proof.
     intros ts e ts' Hs H. ev_start. rewrite parse_statement_S.
     revert Hs. destruct (cur ts) as [s | s | s | s | k]; [ | | | | destruct k ]; intro Hs;
@@ -400,3 +395,801 @@ Section Rules.
     cbn [bind]. ev_rw. reflexivity.
   Qed.
 End Rules.
+
+(** * 3. An induction principle for the nested syntax tree *)
+
+Section TreeInd.
+  Variables (P : expr -> Prop) (Q : stmt -> Prop).
+  Hypothesis H_infix : forall l o r, P l -> P r -> P (EInfix l o r).
+  Hypothesis H_prefix : forall o r, P r -> P (EPrefix o r).
+  Hypothesis H_int : forall z, P (EInt z).
+  Hypothesis H_float : forall x, P (EFloat x).
+  Hypothesis H_bool : forall b, P (EBool b).
+  Hypothesis H_if_none : forall c t, P c -> Forall Q t -> P (EIf c t None).
+  Hypothesis H_if_some : forall c t a, P c -> Forall Q t -> Forall Q a -> P (EIf c t (Some a)).
+  Hypothesis H_ident : forall s, P (EIdent s).
+  Hypothesis H_function : forall n ps body, Forall Q body -> P (EFunction n ps body).
+  Hypothesis H_call : forall h args, P h -> Forall P args -> P (ECall h args).
+  Hypothesis H_assign : forall l r, P l -> P r -> P (EAssign l r).
+  Hypothesis H_string : forall s, P (EString s).
+  Hypothesis H_array : forall vs, Forall P vs -> P (EArray vs).
+  Hypothesis H_index : forall b i, P b -> P i -> P (EIndex b i).
+  Hypothesis H_while : forall c b, P c -> Forall Q b -> P (EWhile c b).
+  Hypothesis H_let : forall n e, P e -> Q (SLet n e).
+  Hypothesis H_return : forall e, P e -> Q (SReturn e).
+  Hypothesis H_expr : forall e, P e -> Q (SExpr e).
+  Hypothesis H_block : forall b, Forall Q b -> Q (SBlock b).
+  Hypothesis H_break : Q SBreak.
+  Hypothesis H_continue : Q SContinue.
+
+  Fixpoint expr_tree_ind (e : expr) {struct e} : P e :=
+    match e as e0 return P e0 with
+    | EInfix l o r => H_infix l o r (expr_tree_ind l) (expr_tree_ind r)
+    | EPrefix o r => H_prefix o r (expr_tree_ind r)
+    | EInt z => H_int z
+    | EFloat x => H_float x
+    | EBool b => H_bool b
+    | EIf c t None =>
+        H_if_none c t (expr_tree_ind c)
+          ((fix go (l : list stmt) : Forall Q l :=
+              match l as l0 return Forall Q l0 with
+              | [] => @Forall_nil _ Q
+              | s :: l' => @Forall_cons _ Q s l' (stmt_tree_ind s) (go l')
+              end) t)
+    | EIf c t (Some a) =>
+        H_if_some c t a (expr_tree_ind c)
+          ((fix go (l : list stmt) : Forall Q l :=
+              match l as l0 return Forall Q l0 with
+              | [] => @Forall_nil _ Q
+              | s :: l' => @Forall_cons _ Q s l' (stmt_tree_ind s) (go l')
+              end) t)
+          ((fix go (l : list stmt) : Forall Q l :=
+              match l as l0 return Forall Q l0 with
+              | [] => @Forall_nil _ Q
+              | s :: l' => @Forall_cons _ Q s l' (stmt_tree_ind s) (go l')
+              end) a)
+    | EIdent s => H_ident s
+    | EFunction n ps body =>
+        H_function n ps body
+          ((fix go (l : list stmt) : Forall Q l :=
+              match l as l0 return Forall Q l0 with
+              | [] => @Forall_nil _ Q
+              | s :: l' => @Forall_cons _ Q s l' (stmt_tree_ind s) (go l')
+              end) body)
+    | ECall h args =>
+        H_call h args (expr_tree_ind h)
+          ((fix go (l : list expr) : Forall P l :=
+              match l as l0 return Forall P l0 with
+              | [] => @Forall_nil _ P
+              | x :: l' => @Forall_cons _ P x l' (expr_tree_ind x) (go l')
+              end) args)
+    | EAssign l r => H_assign l r (expr_tree_ind l) (expr_tree_ind r)
+    | EString s => H_string s
+    | EArray vs =>
+        H_array vs
+          ((fix go (l : list expr) : Forall P l :=
+              match l as l0 return Forall P l0 with
+              | [] => @Forall_nil _ P
+              | x :: l' => @Forall_cons _ P x l' (expr_tree_ind x) (go l')
+              end) vs)
+    | EIndex b i => H_index b i (expr_tree_ind b) (expr_tree_ind i)
+    | EWhile c b =>
+        H_while c b (expr_tree_ind c)
+          ((fix go (l : list stmt) : Forall Q l :=
+              match l as l0 return Forall Q l0 with
+              | [] => @Forall_nil _ Q
+              | s :: l' => @Forall_cons _ Q s l' (stmt_tree_ind s) (go l')
+              end) b)
+    end
+  with stmt_tree_ind (s : stmt) {struct s} : Q s :=
+    match s as s0 return Q s0 with
+    | SLet n e => H_let n e (expr_tree_ind e)
+    | SReturn e => H_return e (expr_tree_ind e)
+    | SExpr e => H_expr e (expr_tree_ind e)
+    | SBlock b =>
+        H_block b
+          ((fix go (l : list stmt) : Forall Q l :=
+              match l as l0 return Forall Q l0 with
+              | [] => @Forall_nil _ Q
+              | s' :: l' => @Forall_cons _ Q s' l' (stmt_tree_ind s') (go l')
+              end) b)
+    | SBreak => H_break
+    | SContinue => H_continue
+    end.
+
+  Lemma tree_ind : (forall e, P e) /\ (forall s, Q s).
+  Proof. split; [ exact expr_tree_ind | exact stmt_tree_ind ]. Qed.
+End TreeInd.
+
+(** * 4. Facts computed from the generated tables *)
+
+(* contexts in which calls and indexing can be read at all: every p that parse_expr is ever called with *)
+Definition p_ok (p : prec) : Prop :=
+  prec_lt p (tok_prec KOpenParen) = true /\ prec_lt p (tok_prec KOpenBracket) = true.
+
+(* the token after the expression does not continue it at level f, and is not `anders` *)
+Definition follow (f : prec) (rest : list token) : Prop :=
+  is_fix KElse (cur rest) = false /\
+  (prec_rank (token_precedence (cur rest)) <= prec_rank f)%nat.
+
+Lemma rank_lowest : prec_rank PLowest = 0%nat.
+Proof. reflexivity. Qed.
+
+Lemma inf_rank_pos : (0 < inf_rank)%nat.
+Proof. vm_compute. lia. Qed.
+
+Lemma assign_rank_pos : (0 < tok_rank KAssign)%nat.
+Proof. vm_compute. lia. Qed.
+
+Lemma p_ok_lowest : p_ok PLowest.
+Proof. split; reflexivity. Qed.
+
+Lemma p_ok_assign : p_ok PAssign.
+Proof. split; reflexivity. Qed.
+
+Lemma infix_tok_spec : forall o, is_infix_op o = true ->
+  is_infix_token (TFix (infix_tok o)) = true /\
+  operator_of (TFix (infix_tok o)) = Some o /\
+  is_fix KSemi (TFix (infix_tok o)) = false /\
+  is_fix KElse (TFix (infix_tok o)) = false /\
+  (0 < tok_rank (infix_tok o))%nat /\
+  p_ok (tok_prec (infix_tok o)).
+Proof.
+  intros o H. destruct o; try discriminate H; vm_compute; repeat split; lia.
+Qed.
+
+Lemma prefix_tok_spec : forall o, is_prefix_op o = true ->
+  (prefix_tok o = KBang \/ prefix_tok o = KMinus) /\
+  operator_of (TFix (prefix_tok o)) = Some o /\
+  p_ok (tok_prec (prefix_tok o)).
+Proof.
+  intros o H. destruct o; try discriminate H; vm_compute; repeat split; auto.
+Qed.
+
+Lemma follow_low : forall k f X,
+  is_fix KElse (TFix k) = false -> tok_prec k = PLowest -> follow f (TFix k :: X).
+Proof.
+  intros k f X He Hp. split; [ exact He | ].
+  cbn [cur]. change (token_precedence (TFix k)) with (tok_prec k). rewrite Hp, rank_lowest. lia.
+Qed.
+
+Lemma follow_self : forall k X, is_fix KElse (TFix k) = false -> follow (tok_prec k) (TFix k :: X).
+Proof. intros k X He. split; [ exact He | ]. cbn [cur]. unfold tok_prec. lia. Qed.
+
+Lemma need_false : forall p f e, need_parens p f e = false ->
+  (prec_rank p < head_rank e)%nat /\ (prec_rank f <= open_rank e)%nat.
+Proof.
+  intros p f e H. unfold need_parens in H. apply orb_false_elim in H. destruct H as [H1 H2].
+  apply Nat.leb_gt in H1. apply Nat.ltb_ge in H2. split; assumption.
+Qed.
+
+Lemma need_low : forall e, (0 < head_rank e)%nat -> need_parens PLowest PLowest e = false.
+Proof.
+  intros e H. unfold need_parens. rewrite rank_lowest. apply orb_false_intro.
+  - apply Nat.leb_gt. exact H.
+  - apply Nat.ltb_ge. lia.
+Qed.
+
+Lemma expr_start_facts : forall t, expr_start t = true ->
+  is_fix KAssign t = false /\ is_fix KCloseParen t = false /\ is_fix KCloseBracket t = false /\
+  is_fix KEof t = false /\ is_fix KCloseBrace t = false.
+Proof.
+  intros t H. destruct t as [s | s | s | s | k]; [ | | | | destruct k ];
+    try discriminate H; repeat split; reflexivity.
+Qed.
+
+(** * 5. Unfolding equations of the printer and of wf *)
+
+Section Unfold.
+  Variable show_f : float -> text.
+  Variable fok : float -> bool.
+
+  Lemma print_expr_eq : forall p f e,
+    print_expr show_f p f e =
+      if need_parens p f e
+      then TFix KOpenParen :: print_raw show_f PLowest PLowest e ++ [TFix KCloseParen]
+      else print_raw show_f p f e.
+  Proof. intros p f e. destruct e; reflexivity. Qed.
+
+  Lemma print_stmt_let : forall n e,
+    print_stmt show_f (SLet n e) =
+      TFix KDeclare :: TIdent n :: TFix KAssign :: print_expr show_f PLowest PLowest e ++ [TFix KSemi].
+  Proof. reflexivity. Qed.
+  Lemma print_stmt_return : forall e,
+    print_stmt show_f (SReturn e) = TFix KReturn :: print_expr show_f PLowest PLowest e ++ [TFix KSemi].
+  Proof. reflexivity. Qed.
+  Lemma print_stmt_expr : forall e,
+    print_stmt show_f (SExpr e) = print_expr show_f PLowest PLowest e ++ [TFix KSemi].
+  Proof. reflexivity. Qed.
+  Lemma print_stmt_block : forall b,
+    print_stmt show_f (SBlock b) =
+      TFix KOpenBrace :: print_stmts show_f b ++ [TFix KCloseBrace; TFix KSemi].
+  Proof. reflexivity. Qed.
+  Lemma print_stmt_break : print_stmt show_f SBreak = [TFix KBreak; TFix KSemi].
+  Proof. reflexivity. Qed.
+  Lemma print_stmt_continue : print_stmt show_f SContinue = [TFix KContinue; TFix KSemi].
+  Proof. reflexivity. Qed.
+
+  Lemma print_stmts_cons : forall s b,
+    print_stmts show_f (s :: b) = print_stmt show_f s ++ print_stmts show_f b.
+  Proof. reflexivity. Qed.
+
+  Lemma print_block_app : forall b rest,
+    print_block show_f b ++ rest = TFix KOpenBrace :: print_stmts show_f b ++ TFix KCloseBrace :: rest.
+  Proof. intros b rest. unfold print_block. cbn [app]. rewrite <- app_assoc. reflexivity. Qed.
+
+  Lemma print_list_cons : forall e es,
+    print_list show_f (e :: es) =
+      match es with
+      | [] => print_expr show_f PLowest PLowest e
+      | _ => print_expr show_f PLowest PLowest e ++ TFix KComma :: print_list show_f es
+      end.
+  Proof. intros e es. destruct es; reflexivity. Qed.
+
+  Lemma print_params_cons : forall n ps,
+    print_params (n :: ps) =
+      match ps with [] => [TIdent n] | _ => TIdent n :: TFix KComma :: print_params ps end.
+  Proof. intros n ps. destruct ps; reflexivity. Qed.
+
+  Lemma wf_infix : forall l o r,
+    wf_expr fok (EInfix l o r) =
+      is_infix_op o && negb (is_function l) && wf_expr fok l && wf_expr fok r.
+  Proof. reflexivity. Qed.
+  Lemma wf_prefix : forall o r, wf_expr fok (EPrefix o r) = is_prefix_op o && wf_expr fok r.
+  Proof. reflexivity. Qed.
+  Lemma wf_int : forall z, wf_expr fok (EInt z) = (0 <=? z) && (z <=? MAX_INT).
+  Proof. reflexivity. Qed.
+  Lemma wf_float : forall x, wf_expr fok (EFloat x) = fok x.
+  Proof. reflexivity. Qed.
+  Lemma wf_if : forall c t a,
+    wf_expr fok (EIf c t a) =
+      wf_expr fok c && forallb (wf_stmt fok) t
+      && match a with None => true | Some a' => forallb (wf_stmt fok) a' end.
+  Proof. reflexivity. Qed.
+  Lemma wf_function : forall n ps body,
+    wf_expr fok (EFunction n ps body) = forallb (wf_stmt fok) body.
+  Proof. reflexivity. Qed.
+  Lemma wf_call : forall h args,
+    wf_expr fok (ECall h args) = call_head h && wf_expr fok h && forallb (wf_expr fok) args.
+  Proof. reflexivity. Qed.
+  Lemma wf_assign : forall l r,
+    wf_expr fok (EAssign l r) = assign_target l && wf_expr fok l && wf_expr fok r.
+  Proof. reflexivity. Qed.
+  Lemma wf_array : forall vs, wf_expr fok (EArray vs) = forallb (wf_expr fok) vs.
+  Proof. reflexivity. Qed.
+  Lemma wf_index : forall b i,
+    wf_expr fok (EIndex b i) = index_base b && wf_expr fok b && wf_expr fok i.
+  Proof. reflexivity. Qed.
+  Lemma wf_while : forall c b,
+    wf_expr fok (EWhile c b) = wf_expr fok c && forallb (wf_stmt fok) b.
+  Proof. reflexivity. Qed.
+  Lemma wf_let : forall n e, wf_stmt fok (SLet n e) = wf_expr fok e.
+  Proof. reflexivity. Qed.
+  Lemma wf_return : forall e, wf_stmt fok (SReturn e) = wf_expr fok e.
+  Proof. reflexivity. Qed.
+  Lemma wf_sexpr : forall e, wf_stmt fok (SExpr e) = wf_expr fok e.
+  Proof. reflexivity. Qed.
+  Lemma wf_sblock : forall b, wf_stmt fok (SBlock b) = forallb (wf_stmt fok) b.
+  Proof. reflexivity. Qed.
+
+  (** the first token of a printed expression starts an expression *)
+  Lemma first_tok : forall e, wf_expr fok e = true ->
+    forall p f rest, expr_start (cur (print_expr show_f p f e ++ rest)) = true.
+  Proof.
+    apply (expr_tree_ind
+             (fun e => wf_expr fok e = true ->
+                       forall p f rest, expr_start (cur (print_expr show_f p f e ++ rest)) = true)
+             (fun _ => True));
+      try (intros; exact I).
+    - intros l o r IHl _ Hwf p f rest. rewrite wf_infix in Hwf.
+      apply andb_true_iff in Hwf. destruct Hwf as [Hwf _].
+      apply andb_true_iff in Hwf. destruct Hwf as [_ Hwl].
+      rewrite print_expr_eq. destruct (need_parens p f (EInfix l o r)); [ reflexivity | ].
+      cbn [print_raw]. rewrite <- app_assoc. apply IHl. exact Hwl.
+    - intros o r _ Hwf p f rest. rewrite wf_prefix in Hwf.
+      apply andb_true_iff in Hwf. destruct Hwf as [Hop _].
+      destruct (prefix_tok_spec o Hop) as (Hk & _).
+      rewrite print_expr_eq. destruct (need_parens p f (EPrefix o r)); [ reflexivity | ].
+      cbn [print_raw app cur]. destruct Hk as [Hk | Hk]; rewrite Hk; reflexivity.
+    - intros z _ p f rest. rewrite print_expr_eq. destruct (need_parens p f (EInt z)); reflexivity.
+    - intros x _ p f rest. rewrite print_expr_eq. destruct (need_parens p f (EFloat x)); reflexivity.
+    - intros b _ p f rest. rewrite print_expr_eq.
+      destruct (need_parens p f (EBool b)); [ reflexivity | ]. destruct b; reflexivity.
+    - intros c t _ _ _ p f rest. rewrite print_expr_eq.
+      destruct (need_parens p f (EIf c t None)); reflexivity.
+    - intros c t a _ _ _ _ p f rest. rewrite print_expr_eq.
+      destruct (need_parens p f (EIf c t (Some a))); reflexivity.
+    - intros s _ p f rest. rewrite print_expr_eq. destruct (need_parens p f (EIdent s)); reflexivity.
+    - intros n ps body _ _ p f rest. rewrite print_expr_eq.
+      destruct (need_parens p f (EFunction n ps body)); reflexivity.
+    - intros h args IHh _ Hwf p f rest. rewrite wf_call in Hwf.
+      apply andb_true_iff in Hwf. destruct Hwf as [Hwf _].
+      apply andb_true_iff in Hwf. destruct Hwf as [_ Hwh].
+      rewrite print_expr_eq. destruct (need_parens p f (ECall h args)); [ reflexivity | ].
+      cbn [print_raw]. rewrite <- app_assoc. apply IHh. exact Hwh.
+    - intros l r IHl _ Hwf p f rest. rewrite wf_assign in Hwf.
+      apply andb_true_iff in Hwf. destruct Hwf as [Hwf _].
+      apply andb_true_iff in Hwf. destruct Hwf as [_ Hwl].
+      rewrite print_expr_eq. destruct (need_parens p f (EAssign l r)); [ reflexivity | ].
+      cbn [print_raw]. rewrite <- app_assoc. apply IHl. exact Hwl.
+    - intros s _ p f rest. rewrite print_expr_eq. destruct (need_parens p f (EString s)); reflexivity.
+    - intros vs _ _ p f rest. rewrite print_expr_eq. destruct (need_parens p f (EArray vs)); reflexivity.
+    - intros b i IHb _ Hwf p f rest. rewrite wf_index in Hwf.
+      apply andb_true_iff in Hwf. destruct Hwf as [Hwf _].
+      apply andb_true_iff in Hwf. destruct Hwf as [_ Hwb].
+      rewrite print_expr_eq. destruct (need_parens p f (EIndex b i)); [ reflexivity | ].
+      cbn [print_raw]. rewrite <- app_assoc. apply IHb. exact Hwb.
+    - intros c b _ _ _ p f rest. rewrite print_expr_eq.
+      destruct (need_parens p f (EWhile c b)); reflexivity.
+  Qed.
+End Unfold.
+
+(** * 6. The Pratt invariant *)
+
+Section Main.
+  Variable pf : text -> option float.
+  Variable show_f : float -> text.
+  Variable fok : float -> bool.
+  Hypothesis Hfok : forall x, fok x = true -> pf (show_f x) = Some x.
+
+  (* The invariant.  `e` printed for context (p, f), followed by any `rest` whose first token has
+     binding power at most f (and is not `anders`): parse_expr(p) behaves exactly like the loop of
+     parse_expr(p) entered with `e` already built and `rest` still to read. *)
+  Definition Full (e : expr) : Prop :=
+    forall p f rest R, p_ok p -> follow f rest ->
+      PL pf p e rest R -> PE pf p (print_expr show_f p f e ++ rest) R.
+  Definition RawI (e : expr) : Prop :=
+    forall p f rest R, p_ok p -> need_parens p f e = false -> follow f rest ->
+      PL pf p e rest R -> PE pf p (print_raw show_f p f e ++ rest) R.
+  Definition StI (s : stmt) : Prop :=
+    forall rest, PSt pf (print_stmt show_f s ++ rest) (Ok (s, rest)).
+
+  Lemma raw_to_full : forall e, need_parens PLowest PLowest e = false -> RawI e -> Full e.
+  Proof.
+    intros e Hlow Hraw p f rest R Hp Hf HL. rewrite print_expr_eq.
+    destruct (need_parens p f e) eqn:En.
+    - cbn [app]. rewrite <- app_assoc. cbn [app].
+      eapply PE_paren; [ | exact HL ].
+      apply Hraw; [ exact p_ok_lowest | exact Hlow | apply follow_low; reflexivity | ].
+      apply PL_stop. cbn [cur]. change (token_precedence (TFix KCloseParen)) with PLowest. lia.
+    - apply Hraw; assumption.
+  Qed.
+
+  (* the form in which the invariant is used for a complete operand *)
+  Lemma full_ok : forall e p f rest, Full e -> p_ok p -> follow f rest ->
+    (prec_rank f <= prec_rank p)%nat ->
+    PE pf p (print_expr show_f p f e ++ rest) (Ok (e, rest)).
+  Proof.
+    intros e p f rest HF Hp Hf Hle. apply HF; [ exact Hp | exact Hf | ].
+    apply PL_stop. destruct Hf as [_ Hf]. lia.
+  Qed.
+
+  Lemma full_low : forall e k rest, Full e ->
+    is_fix KElse (TFix k) = false -> tok_prec k = PLowest ->
+    PE pf PLowest (print_expr show_f PLowest PLowest e ++ TFix k :: rest) (Ok (e, TFix k :: rest)).
+  Proof.
+    intros e k rest HF He Hk. apply full_ok; [ exact HF | exact p_ok_lowest | | lia ].
+    apply follow_low; assumption.
+  Qed.
+
+  (** ** atoms *)
+
+  Lemma full_int : forall z, wf_expr fok (EInt z) = true -> Full (EInt z).
+  Proof.
+    intros z Hwf. rewrite wf_int in Hwf. apply andb_true_iff in Hwf. destruct Hwf as [H0 H1].
+    apply Z.leb_le in H0. apply Z.leb_le in H1.
+    apply raw_to_full; [ apply need_low; exact inf_rank_pos | ].
+    intros p f rest R Hp Hn Hf HL. cbn [print_raw app].
+    eapply PE_int; [ apply int_literal_show; assumption | exact HL ].
+  Qed.
+
+  Lemma full_float : forall x, wf_expr fok (EFloat x) = true -> Full (EFloat x).
+  Proof.
+    intros x Hwf. rewrite wf_float in Hwf.
+    apply raw_to_full; [ apply need_low; exact inf_rank_pos | ].
+    intros p f rest R Hp Hn Hf HL. cbn [print_raw app].
+    eapply PE_float; [ apply Hfok; exact Hwf | exact HL ].
+  Qed.
+
+  Lemma full_bool : forall b, Full (EBool b).
+  Proof.
+    intros b. apply raw_to_full; [ apply need_low; exact inf_rank_pos | ].
+    intros p f rest R Hp Hn Hf HL. cbn [print_raw app]. apply PE_bool. exact HL.
+  Qed.
+
+  Lemma full_ident : forall s, Full (EIdent s).
+  Proof.
+    intros s. apply raw_to_full; [ apply need_low; exact inf_rank_pos | ].
+    intros p f rest R Hp Hn Hf HL. cbn [print_raw app]. apply PE_ident. exact HL.
+  Qed.
+
+  Lemma full_string : forall s, Full (EString s).
+  Proof.
+    intros s. apply raw_to_full; [ apply need_low; exact inf_rank_pos | ].
+    intros p f rest R Hp Hn Hf HL. cbn [print_raw app]. apply PE_string.
+    rewrite decode_quote. exact HL.
+  Qed.
+
+  (** ** operators: precedence, left associativity, the prefix quirk *)
+
+  Lemma full_infix : forall l o r,
+    (wf_expr fok l = true -> Full l) -> (wf_expr fok r = true -> Full r) ->
+    wf_expr fok (EInfix l o r) = true -> Full (EInfix l o r).
+  Proof.
+    intros l o r IHl IHr Hwf. rewrite wf_infix in Hwf.
+    apply andb_true_iff in Hwf. destruct Hwf as [Hwf Hwr].
+    apply andb_true_iff in Hwf. destruct Hwf as [Hwf Hwl].
+    apply andb_true_iff in Hwf. destruct Hwf as [Hop Hnf].
+    apply negb_true_iff in Hnf.
+    destruct (infix_tok_spec o Hop) as (Kin & Kop & Ksemi & Kelse & Kpos & Kpok).
+    apply raw_to_full; [ apply need_low; exact Kpos | ].
+    intros p f rest R Hp Hn Hf HL. apply need_false in Hn. cbn [head_rank open_rank] in Hn.
+    destruct Hn as [Hn1 Hn2]. unfold tok_rank in Hn1, Hn2.
+    cbn [print_raw]. cbv zeta. rewrite <- app_assoc. rewrite <- app_comm_cons.
+    apply (IHl Hwl); [ exact Hp | apply follow_self; exact Kelse | ].
+    eapply PL_infix;
+      [ exact Ksemi
+      | unfold prec_lt; apply Nat.ltb_lt; exact Hn1
+      | exact Kin
+      | exact Kop
+      | exact Hnf
+      | destruct (expr_start_facts _ (first_tok show_f fok r Hwr (tok_prec (infix_tok o)) f rest))
+          as (Ha & _); exact Ha
+      | apply (IHr Hwr); [ exact Kpok | exact Hf | apply PL_stop; destruct Hf as [_ Hf]; lia ]
+      | exact HL ].
+  Qed.
+
+  Lemma full_prefix : forall o r,
+    (wf_expr fok r = true -> Full r) ->
+    wf_expr fok (EPrefix o r) = true -> Full (EPrefix o r).
+  Proof.
+    intros o r IHr Hwf. rewrite wf_prefix in Hwf.
+    apply andb_true_iff in Hwf. destruct Hwf as [Hop Hwr].
+    destruct (prefix_tok_spec o Hop) as (Kk & Kop & Kpok).
+    apply raw_to_full; [ apply need_low; exact inf_rank_pos | ].
+    intros p f rest R Hp Hn Hf HL. apply need_false in Hn. cbn [head_rank open_rank] in Hn.
+    destruct Hn as [_ Hn2]. unfold tok_rank in Hn2.
+    cbn [print_raw]. cbv zeta. rewrite <- app_comm_cons.
+    eapply PE_prefix;
+      [ exact Kk
+      | exact Kop
+      | apply (IHr Hwr); [ exact Kpok | exact Hf | apply PL_stop; destruct Hf as [_ Hf]; lia ]
+      | exact HL ].
+  Qed.
+
+  Lemma full_assign : forall l r,
+    (wf_expr fok l = true -> Full l) -> (wf_expr fok r = true -> Full r) ->
+    wf_expr fok (EAssign l r) = true -> Full (EAssign l r).
+  Proof.
+    intros l r IHl IHr Hwf. rewrite wf_assign in Hwf.
+    apply andb_true_iff in Hwf. destruct Hwf as [Hwf Hwr].
+    apply andb_true_iff in Hwf. destruct Hwf as [Htg Hwl].
+    apply raw_to_full; [ apply need_low; exact assign_rank_pos | ].
+    intros p f rest R Hp Hn Hf HL. apply need_false in Hn. cbn [head_rank open_rank] in Hn.
+    destruct Hn as [Hn1 Hn2]. unfold tok_rank in Hn1, Hn2.
+    cbn [print_raw]. rewrite <- app_assoc. rewrite <- app_comm_cons.
+    apply (IHl Hwl); [ exact Hp | apply follow_self; reflexivity | ].
+    eapply PL_assign;
+      [ unfold prec_lt; apply Nat.ltb_lt; exact Hn1
+      | exact Htg
+      | change PAssign with (tok_prec KAssign);
+        apply (IHr Hwr); [ exact p_ok_assign | exact Hf | apply PL_stop; destruct Hf as [_ Hf]; lia ]
+      | exact HL ].
+  Qed.
+
+  (** ** lists *)
+
+  Lemma PLi_print : forall close, close = KCloseParen \/ close = KCloseBracket ->
+    forall es, Forall (fun e => wf_expr fok e = true -> Full e) es ->
+    forallb (wf_expr fok) es = true ->
+    forall rest, PLi pf close (print_list show_f es ++ TFix close :: rest) (Ok (es, TFix close :: rest)).
+  Proof.
+    intros close Hc es HF.
+    assert (Hclose : is_fix close (TFix close) = true /\ is_fix KComma (TFix close) = false /\
+                     is_fix KElse (TFix close) = false /\ tok_prec close = PLowest)
+      by (destruct Hc; subst close; repeat split; reflexivity).
+    destruct Hclose as (Hc1 & Hc2 & Hc3 & Hc4).
+    induction HF as [ | e es' He HF' IH]; intros Hwf rest.
+    - cbn [print_list map sep_concat app]. apply PLi_nil. exact Hc1.
+    - cbn [forallb] in Hwf. apply andb_true_iff in Hwf. destruct Hwf as [Hwe Hwes].
+      assert (Hst : forall X, is_fix close (cur (print_expr show_f PLowest PLowest e ++ X)) = false).
+      { intro X. destruct (expr_start_facts _ (first_tok show_f fok e Hwe PLowest PLowest X))
+          as (_ & Hp & Hb & _). destruct Hc; subst close; assumption. }
+      rewrite print_list_cons. destruct es' as [ | e2 es''].
+      + eapply PLi_cons;
+          [ apply Hst
+          | apply full_low; [ exact (He Hwe) | exact Hc3 | exact Hc4 ]
+          | ].
+        cbn [skip_optional cur]. rewrite Hc2. apply PLi_nil. exact Hc1.
+      + rewrite <- app_assoc. rewrite <- app_comm_cons.
+        eapply PLi_cons;
+          [ apply Hst
+          | apply full_low; [ exact (He Hwe) | reflexivity | reflexivity ]
+          | ].
+        cbn [skip_optional cur is_fix ftoken_eqb advance tl]. apply IH. exact Hwes.
+  Qed.
+
+  Lemma PPa_print : forall ps rest,
+    PPa pf (print_params ps ++ TFix KCloseParen :: rest) (Ok (ps, TFix KCloseParen :: rest)).
+  Proof.
+    induction ps as [ | n ps IH]; intro rest.
+    - cbn [print_params map sep_concat app]. apply PPa_nil. reflexivity.
+    - rewrite print_params_cons. destruct ps as [ | n2 ps'].
+      + cbn [app]. apply PPa_cons. cbn [skip_optional cur is_fix ftoken_eqb]. apply PPa_nil. reflexivity.
+      + cbn [app]. apply PPa_cons. cbn [skip_optional cur is_fix ftoken_eqb advance tl]. apply IH.
+  Qed.
+
+  (** ** calls, indexing, arrays *)
+
+  Lemma full_call : forall h args,
+    (wf_expr fok h = true -> Full h) -> Forall (fun e => wf_expr fok e = true -> Full e) args ->
+    wf_expr fok (ECall h args) = true -> Full (ECall h args).
+  Proof.
+    intros h args IHh IHargs Hwf. rewrite wf_call in Hwf.
+    apply andb_true_iff in Hwf. destruct Hwf as [Hwf Hwargs].
+    apply andb_true_iff in Hwf. destruct Hwf as [Hh Hwh].
+    apply raw_to_full; [ apply need_low; exact inf_rank_pos | ].
+    intros p f rest R Hp Hn Hf HL.
+    cbn [print_raw]. rewrite <- app_assoc. rewrite <- app_comm_cons. rewrite <- app_assoc. cbn [app].
+    apply (IHh Hwh); [ exact Hp | apply follow_self; reflexivity | ].
+    eapply PL_call;
+      [ destruct Hp as [Hp1 _]; exact Hp1
+      | exact Hh
+      | apply PLi_print; [ left; reflexivity | exact IHargs | exact Hwargs ]
+      | exact HL ].
+  Qed.
+
+  Lemma full_index : forall b i,
+    (wf_expr fok b = true -> Full b) -> (wf_expr fok i = true -> Full i) ->
+    wf_expr fok (EIndex b i) = true -> Full (EIndex b i).
+  Proof.
+    intros b i IHb IHi Hwf. rewrite wf_index in Hwf.
+    apply andb_true_iff in Hwf. destruct Hwf as [Hwf Hwi].
+    apply andb_true_iff in Hwf. destruct Hwf as [Hb Hwb].
+    apply raw_to_full; [ apply need_low; exact inf_rank_pos | ].
+    intros p f rest R Hp Hn Hf HL.
+    cbn [print_raw]. rewrite <- app_assoc. rewrite <- app_comm_cons. rewrite <- app_assoc. cbn [app].
+    apply (IHb Hwb); [ exact Hp | apply follow_self; reflexivity | ].
+    eapply PL_index;
+      [ destruct Hp as [_ Hp2]; exact Hp2
+      | exact Hb
+      | apply full_low; [ exact (IHi Hwi) | reflexivity | reflexivity ]
+      | exact HL ].
+  Qed.
+
+  Lemma full_array : forall vs,
+    Forall (fun e => wf_expr fok e = true -> Full e) vs ->
+    wf_expr fok (EArray vs) = true -> Full (EArray vs).
+  Proof.
+    intros vs IHvs Hwf. rewrite wf_array in Hwf.
+    apply raw_to_full; [ apply need_low; exact inf_rank_pos | ].
+    intros p f rest R Hp Hn Hf HL.
+    cbn [print_raw]. rewrite <- app_comm_cons. rewrite <- app_assoc. cbn [app].
+    eapply PE_array;
+      [ apply PLi_print; [ right; reflexivity | exact IHvs | exact Hwf ]
+      | exact HL ].
+  Qed.
+
+  (** ** blocks *)
+
+  Lemma stmt_first : forall s, wf_stmt fok s = true -> forall rest,
+    is_fix KEof (cur (print_stmt show_f s ++ rest)) = false /\
+    is_fix KCloseBrace (cur (print_stmt show_f s ++ rest)) = false.
+  Proof.
+    intros s Hwf rest. destruct s as [n e | e | e | b | | ].
+    - rewrite print_stmt_let. split; reflexivity.
+    - rewrite print_stmt_return. split; reflexivity.
+    - rewrite print_stmt_expr. rewrite wf_sexpr in Hwf. rewrite <- app_assoc.
+      destruct (expr_start_facts _ (first_tok show_f fok e Hwf PLowest PLowest ([TFix KSemi] ++ rest)))
+        as (_ & _ & _ & H1 & H2). split; assumption.
+    - rewrite print_stmt_block. split; reflexivity.
+    - rewrite print_stmt_break. split; reflexivity.
+    - rewrite print_stmt_continue. split; reflexivity.
+  Qed.
+
+  Lemma PBI_print : forall b, Forall (fun s => wf_stmt fok s = true -> StI s) b ->
+    forallb (wf_stmt fok) b = true ->
+    forall rest, PBI pf (print_stmts show_f b ++ TFix KCloseBrace :: rest)
+                   (Ok (b, TFix KCloseBrace :: rest)).
+  Proof.
+    intros b HF. induction HF as [ | s b' Hs HF' IH]; intros Hwf rest.
+    - cbn [print_stmts flat_map app]. apply PBI_nil. reflexivity.
+    - cbn [forallb] in Hwf. apply andb_true_iff in Hwf. destruct Hwf as [Hws Hwb].
+      rewrite print_stmts_cons. rewrite <- app_assoc.
+      destruct (stmt_first s Hws (print_stmts show_f b' ++ TFix KCloseBrace :: rest)) as [H1 H2].
+      eapply PBI_cons; [ exact H1 | exact H2 | apply (Hs Hws) | apply IH; exact Hwb ].
+  Qed.
+
+  Lemma PB_print : forall b, Forall (fun s => wf_stmt fok s = true -> StI s) b ->
+    forallb (wf_stmt fok) b = true ->
+    forall rest, PB pf (TFix KOpenBrace :: print_stmts show_f b ++ TFix KCloseBrace :: rest)
+                   (Ok (b, rest)).
+  Proof. intros b HF Hwf rest. apply PB_intro. apply PBI_print; assumption. Qed.
+
+  Lemma PPr_print : forall b, Forall (fun s => wf_stmt fok s = true -> StI s) b ->
+    forallb (wf_stmt fok) b = true -> PPr pf (print_stmts show_f b) (Ok b).
+  Proof.
+    intros b HF. induction HF as [ | s b' Hs HF' IH]; intros Hwf.
+    - apply PPr_nil.
+    - cbn [forallb] in Hwf. apply andb_true_iff in Hwf. destruct Hwf as [Hws Hwb].
+      rewrite print_stmts_cons.
+      destruct (stmt_first s Hws (print_stmts show_f b')) as [H1 _].
+      eapply PPr_cons; [ exact H1 | apply (Hs Hws) | apply IH; exact Hwb ].
+  Qed.
+
+  (** ** als, zolang, functie *)
+
+  Lemma full_if_none : forall c t,
+    (wf_expr fok c = true -> Full c) -> Forall (fun s => wf_stmt fok s = true -> StI s) t ->
+    wf_expr fok (EIf c t None) = true -> Full (EIf c t None).
+  Proof.
+    intros c t IHc IHt Hwf. rewrite wf_if in Hwf.
+    apply andb_true_iff in Hwf. destruct Hwf as [Hwf _].
+    apply andb_true_iff in Hwf. destruct Hwf as [Hwc Hwt].
+    apply raw_to_full; [ apply need_low; exact inf_rank_pos | ].
+    intros p f rest R Hp Hn Hf HL.
+    cbn [print_raw]. rewrite <- app_comm_cons. rewrite <- !app_assoc. cbn [app].
+    rewrite print_block_app.
+    eapply PE_if_none;
+      [ apply full_low; [ exact (IHc Hwc) | reflexivity | reflexivity ]
+      | apply PB_print; [ exact IHt | exact Hwt ]
+      | destruct Hf as [Hf1 _]; exact Hf1
+      | exact HL ].
+  Qed.
+
+  Lemma full_if_some : forall c t a,
+    (wf_expr fok c = true -> Full c) -> Forall (fun s => wf_stmt fok s = true -> StI s) t ->
+    Forall (fun s => wf_stmt fok s = true -> StI s) a ->
+    wf_expr fok (EIf c t (Some a)) = true -> Full (EIf c t (Some a)).
+  Proof.
+    intros c t a IHc IHt IHa Hwf. rewrite wf_if in Hwf.
+    apply andb_true_iff in Hwf. destruct Hwf as [Hwf Hwa].
+    apply andb_true_iff in Hwf. destruct Hwf as [Hwc Hwt].
+    apply raw_to_full; [ apply need_low; exact inf_rank_pos | ].
+    intros p f rest R Hp Hn Hf HL.
+    cbn [print_raw]. rewrite <- app_comm_cons. rewrite <- !app_assoc. rewrite <- app_comm_cons.
+    rewrite !print_block_app.
+    eapply PE_if_some;
+      [ apply full_low; [ exact (IHc Hwc) | reflexivity | reflexivity ]
+      | apply PB_print; [ exact IHt | exact Hwt ]
+      | reflexivity
+      | apply PB_print; [ exact IHa | exact Hwa ]
+      | exact HL ].
+  Qed.
+
+  Lemma full_while : forall c b,
+    (wf_expr fok c = true -> Full c) -> Forall (fun s => wf_stmt fok s = true -> StI s) b ->
+    wf_expr fok (EWhile c b) = true -> Full (EWhile c b).
+  Proof.
+    intros c b IHc IHb Hwf. rewrite wf_while in Hwf.
+    apply andb_true_iff in Hwf. destruct Hwf as [Hwc Hwb].
+    apply raw_to_full; [ apply need_low; exact inf_rank_pos | ].
+    intros p f rest R Hp Hn Hf HL.
+    cbn [print_raw]. rewrite <- app_comm_cons. rewrite <- !app_assoc.
+    rewrite print_block_app.
+    eapply PE_while;
+      [ apply full_low; [ exact (IHc Hwc) | reflexivity | reflexivity ]
+      | apply PB_print; [ exact IHb | exact Hwb ]
+      | exact HL ].
+  Qed.
+
+  Lemma full_function : forall n ps body,
+    Forall (fun s => wf_stmt fok s = true -> StI s) body ->
+    wf_expr fok (EFunction n ps body) = true -> Full (EFunction n ps body).
+  Proof.
+    intros n ps body IHb Hwf. rewrite wf_function in Hwf.
+    apply raw_to_full; [ apply need_low; exact inf_rank_pos | ].
+    intros p f rest R Hp Hn Hf HL.
+    cbn [print_raw]. destruct n as [ | c n'].
+    - cbn [app]. rewrite <- app_assoc. rewrite <- app_comm_cons. rewrite print_block_app.
+      eapply PE_function_anon;
+        [ apply PPa_print | apply PB_print; [ exact IHb | exact Hwf ] | exact HL ].
+    - cbn [app]. rewrite <- app_assoc. rewrite <- app_comm_cons. rewrite print_block_app.
+      eapply PE_function_named;
+        [ apply PPa_print | apply PB_print; [ exact IHb | exact Hwf ] | exact HL ].
+  Qed.
+
+  (** ** statements *)
+
+  Lemma sti_let : forall n e, (wf_expr fok e = true -> Full e) ->
+    wf_stmt fok (SLet n e) = true -> StI (SLet n e).
+  Proof.
+    intros n e IHe Hwf rest. rewrite wf_let in Hwf. rewrite print_stmt_let.
+    rewrite <- !app_comm_cons. rewrite <- app_assoc. cbn [app].
+    apply PSt_let. apply full_low; [ exact (IHe Hwf) | reflexivity | reflexivity ].
+  Qed.
+
+  Lemma sti_return : forall e, (wf_expr fok e = true -> Full e) ->
+    wf_stmt fok (SReturn e) = true -> StI (SReturn e).
+  Proof.
+    intros e IHe Hwf rest. rewrite wf_return in Hwf. rewrite print_stmt_return.
+    rewrite <- !app_comm_cons. rewrite <- app_assoc. cbn [app].
+    apply PSt_return. apply full_low; [ exact (IHe Hwf) | reflexivity | reflexivity ].
+  Qed.
+
+  Lemma sti_expr : forall e, (wf_expr fok e = true -> Full e) ->
+    wf_stmt fok (SExpr e) = true -> StI (SExpr e).
+  Proof.
+    intros e IHe Hwf rest. rewrite wf_sexpr in Hwf. rewrite print_stmt_expr.
+    rewrite <- app_assoc. cbn [app].
+    apply PSt_expr; [ apply first_tok; exact Hwf | ].
+    apply full_low; [ exact (IHe Hwf) | reflexivity | reflexivity ].
+  Qed.
+
+  Lemma sti_block : forall b, Forall (fun s => wf_stmt fok s = true -> StI s) b ->
+    wf_stmt fok (SBlock b) = true -> StI (SBlock b).
+  Proof.
+    intros b IHb Hwf rest. rewrite wf_sblock in Hwf. rewrite print_stmt_block.
+    rewrite <- app_comm_cons. rewrite <- app_assoc. cbn [app].
+    apply PSt_block. apply PB_print; [ exact IHb | exact Hwf ].
+  Qed.
+
+  Lemma sti_break : StI SBreak.
+  Proof. intro rest. rewrite print_stmt_break. cbn [app]. apply PSt_break. Qed.
+
+  Lemma sti_continue : StI SContinue.
+  Proof. intro rest. rewrite print_stmt_continue. cbn [app]. apply PSt_continue. Qed.
+
+  (** ** the invariant holds for every tree in the parser's image *)
+
+  Theorem pratt_invariant :
+    (forall e, wf_expr fok e = true -> Full e) /\ (forall s, wf_stmt fok s = true -> StI s).
+  Proof.
+    apply (tree_ind (fun e => wf_expr fok e = true -> Full e)
+                    (fun s => wf_stmt fok s = true -> StI s)).
+    - exact full_infix.
+    - exact full_prefix.
+    - exact full_int.
+    - exact full_float.
+    - intros b _. apply full_bool.
+    - exact full_if_none.
+    - exact full_if_some.
+    - intros s _. apply full_ident.
+    - exact full_function.
+    - exact full_call.
+    - exact full_assign.
+    - intros s _. apply full_string.
+    - exact full_array.
+    - exact full_index.
+    - exact full_while.
+    - exact sti_let.
+    - exact sti_return.
+    - exact sti_expr.
+    - exact sti_block.
+    - intros _. exact sti_break.
+    - intros _. exact sti_continue.
+  Qed.
+
+  (* The Pratt invariant in its directly usable form: an expression printed for context (p, f) and
+     followed by a token of binding power at most f <= p is read back by parse_expr(p), which stops
+     exactly in front of that token. *)
+  Theorem parse_print_expr : forall e p f rest,
+    wf_expr fok e = true -> p_ok p -> follow f rest -> (prec_rank f <= prec_rank p)%nat ->
+    exists n, forall fuel, (n <= fuel)%nat ->
+      parse_expr pf fuel p (print_expr show_f p f e ++ rest) = Ok (e, rest).
+  Proof.
+    intros e p f rest Hwf Hp Hf Hle. destruct pratt_invariant as [HE _].
+    exact (full_ok e p f rest (HE e Hwf) Hp Hf Hle).
+  Qed.
+
+  Theorem parse_print_stmt : forall s rest, wf_stmt fok s = true ->
+    exists n, forall fuel, (n <= fuel)%nat ->
+      parse_statement pf fuel (print_stmt show_f s ++ rest) = Ok (s, rest).
+  Proof. intros s rest Hwf. destruct pratt_invariant as [_ HS]. exact (HS s Hwf rest). Qed.
+
+  Theorem parse_print_block : forall b rest, forallb (wf_stmt fok) b = true ->
+    exists n, forall fuel, (n <= fuel)%nat ->
+      parse_block_statement pf fuel (print_block show_f b ++ rest) = Ok (b, rest).
+  Proof.
+    intros b rest Hwf. destruct pratt_invariant as [_ HS]. rewrite print_block_app.
+    apply PB_print; [ | exact Hwf ]. apply Forall_forall. intros s _. exact (HS s).
+  Qed.
+
+  Theorem parse_print_gen : forall b, wf_tree_gen fok b = true ->
+    exists n, forall fuel, (n <= fuel)%nat ->
+      parse_program pf fuel (print_program show_f b) = Ok b.
+  Proof.
+    intros b Hwf. destruct pratt_invariant as [_ HS].
+    apply PPr_print; [ | exact Hwf ]. apply Forall_forall. intros s _. exact (HS s).
+  Qed.
+End Main.
